@@ -198,6 +198,11 @@ func runJSON(cs Case, c *vrt.Ctx) {
 		callErr(c, "oj.Tokenizer(veteran).Parse", in, func() error { return vet.OjTokenizer().Parse(cp(), &oj.ZeroHandler{}) })
 		callErr(c, "oj.Tokenizer(veteran).Load", in, func() error { return vet.OjTokenizer().Load(rd(), &oj.ZeroHandler{}) })
 	}
+	callErr(c, "oj.TokenizeString", in, func() error { return oj.TokenizeString(string(d), &oj.ZeroHandler{}) })
+	callErr(c, "oj.ParseString", in, func() error { _, err := oj.ParseString(string(d)); return err })
+	callErr(c, "oj.ValidateString", in, func() error { return oj.ValidateString(string(d)) })
+	callMust(c, "oj.MustLoad", in, func() { oj.MustLoad(rd()) })
+	callMust(c, "oj.MustParseString", in, func() { oj.MustParseString(string(d)) })
 	callMust(c, "oj.MustParse", in, func() { oj.MustParse(cp()) })
 	callErr(c, "oj.Match", in, func() error { return oj.Match(cp(), func(jp.Expr, any) {}, jp.R().D().C("a"), jp.R().W().N(1)) })
 	nontrivialBytes(c, acc, d, dead)
@@ -231,6 +236,9 @@ func runSEN(cs Case, c *vrt.Ctx) {
 		callErr(c, "sen.Tokenizer(veteran).Parse", in, func() error { return vet.SenTokenizer().Parse(cp(), &oj.ZeroHandler{}) })
 		callErr(c, "sen.Tokenizer(veteran).Load", in, func() error { return vet.SenTokenizer().Load(rd(), &oj.ZeroHandler{}) })
 	}
+	callErr(c, "sen.TokenizeString", in, func() error { return sen.TokenizeString(string(d), &oj.ZeroHandler{}) })
+	callMust(c, "sen.MustParseReader", in, func() { sen.MustParseReader(rd()) })
+	callMust(c, "sen.Parser.MustParseReader", in, func() { p := sen.Parser{}; p.MustParseReader(rd()) })
 	callErr(c, "sen.Tokenize", in, func() error { return sen.Tokenize(cp(), &oj.ZeroHandler{}) })
 	callErr(c, "sen.TokenizeLoad", in, func() error { return sen.TokenizeLoad(rd(), &oj.ZeroHandler{}) })
 	callMust(c, "sen.MustParse", in, func() { sen.MustParse(cp()) })
